@@ -17,8 +17,9 @@ THEOREMS = ["LNN.C13_aggregate_zero_iff",
             "LNN.C13_fol_up_zero_iff",
             "LNN.C13_fol_down_zero_iff",
             "LNN.C13_fol_pass_zero_iff",
-            "LNN.C13_fol_restricted"]
-MODULES = ["LnnVerif.Props.C13"]
+            "LNN.C13_fol_restricted",
+            "LNN.C13_fol_amount_eq_potential_drop"]
+MODULES = ["LnnVerif.Props.C13", "LnnVerif.Props.C06Term"]
 FACETS = {"bounds", "reported"}
 
 
